@@ -64,7 +64,7 @@ def diffbaseOf? (j : Json) : Option DiffBaseCfg := do
 def progressLeafOf? (j : Json) : Option ProgressLeaf := do
   match ← jStr? (← jField? j "kind") with
   | "annotations" => some (.annotations (← jStr? (← jField? j "prefix")))
-  | "status" => some (.status (← jStrList? (← jField? j "field")))
+  | "status" => some (.status (← jStrList? (← jField? j "field")) (← jStrList? (← jField? j "touch")))
   | _ => none
 
 def progressOf? (j : Json) : Option ProgressCfg := do
@@ -101,7 +101,7 @@ def handle : DrvHandler := fun op args =>
   | "C04.equiv", [a, b] => do
       let a ← toJ a
       let b ← toJ b
-      some (ok (.bool (J.pyEq (J.dropNulls a) (J.dropNulls b))))
+      some (ok (.bool (same (J.dropNulls a) (J.dropNulls b))))
   | "C04.essence", [cfg, extra, body] => do
       let cfg ← cfgOf? cfg
       let extra ← pathsOf? extra
